@@ -23,6 +23,7 @@ RULE = (
     "dead end below the first component; distinct_nontrivial counts cases with such a query."
     ' Also: names as str subclasses with their own __str__; 4 generated shards of sibling names with special-casing characters judged by folding-independent clauses (see assumptions).'
     ' Also: foreign-separator priming, a path attribute re-entering the running resolver, trees mixing separators, all case-mapping groups of the special names.'
+    ' Rounds 11-14: regex look-alikes, mutated result lists, other-case spellings (glob agrees with get; KF-C08-2 where the two pinned foldings differ).'
 )
 ASSUMPTIONS = [
     "reference evaluator with its own wildcard matcher (dynamic programming, no re/fnmatch); '**' = pre-order of the current node's subtree",
